@@ -3,6 +3,7 @@ CONSTANTS Vars <- VarsXY
  Kinds <- KindsC16
  LitIdx <- LitsAll
  Imports <- NoImports
+ Shape = "free"
  Emit = TRUE
 SPECIFICATION Spec
 INVARIANTS HistoryOK AlgoRefinesPython FoldOnly Fresh WellFormedHeap EmitCase
